@@ -164,6 +164,28 @@ theorem srp_newHash_then_hash_accepted (S : SrpPrims) (hS : LawfulSrp S) (isPrim
 
 /-! ### Non-vacuity -/
 
+/-- The hypotheses of `srp_impl_eq_spec` are jointly satisfiable: with a permissive primality oracle the
+256-byte modulus `2^2047` and `g = 4` pass `CheckDH`, so the theorem applies to a concrete input. -/
+example : ∃ i : Input, i.p.length = 256 ∧
+    C13.checkDH (fun _ => true) i.g ((beNat i.p : Nat) : Int) = .ok := by
+  have hlt : 2 ^ 2047 < 256 ^ 256 := by rw [pow256]; exact Nat.pow_lt_pow_right (by decide) (by decide)
+  obtain ⟨pb, hpb⟩ : ∃ pb, pb = beBytes 256 (2 ^ 2047) := ⟨_, rfl⟩
+  have hl : pb.length = 256 := by rw [hpb]; exact beBytes_length 256 _
+  have hn : beNat pb = 2 ^ 2047 := by rw [hpb]; exact beNat_beBytes 256 _ hlt
+  refine ⟨{ salt1 := [], salt2 := [], g := 4, p := pb }, hl, ?_⟩
+  show C13.checkDH (fun _ => true) 4 ((beNat pb : Nat) : Int) = .ok
+  rw [hn]
+  rw [C13.checkDH_ok_iff]
+  refine ⟨?_, ?_, rfl, rfl⟩
+  · have hk : Facts.C13.rsaKeyBits = 2047 + 1 := by decide
+    rw [hk, C13.bitLen_eq_succ_iff, Int.natAbs_natCast]
+    exact ⟨Nat.le_refl _, Nat.pow_lt_pow_right (by decide) (by decide)⟩
+  · unfold C13.checkGP
+    have ht : Facts.C13.gpTable = [(2, some (8, [7])), (3, some (3, [2])), (4, none), (5, some (5, [1, 4])),
+      (6, some (24, [19, 23])), (7, some (7, [3, 5, 6]))] := by decide
+    rw [ht, C13.checkGPWith_spec_iff _ _ (Int.natCast_nonneg _)]
+    exact Or.inr (Or.inr (Or.inl rfl))
+
 /-- The primitive laws are satisfiable. -/
 example : LawfulSrp ⟨(fun x => (x ++ List.replicate 32 0).take 32), (fun pw _ _ _ => pw),
     (fun b e m => b ^ e % m)⟩ :=
